@@ -968,7 +968,10 @@ public:
         ptr = view(detail::get_level_tag{})
               + view(detail::get_block_length_tag{});
         ResView g{ptr, view(detail::end_ptr_tag{})};
-        ptr += g(detail::get_header_tag{})(detail::size_bytes_tag{});
+        // header size is static, there's no need to access (and check) the
+        // header itself
+        ptr += decltype(g(detail::get_header_tag{})){}(
+            detail::size_bytes_tag{});
 
         return g;
     }
@@ -991,8 +994,8 @@ public:
         SBEPP_ASSERT(
             (getter()(detail::addressof_tag{}) == ptr) && "Wrong cursor value");
         ResView res{ptr, view(detail::end_ptr_tag{})};
-        auto header = res(detail::get_header_tag{});
-        ptr += header(detail::size_bytes_tag{});
+        ptr += decltype(res(detail::get_header_tag{})){}(
+            detail::size_bytes_tag{});
         return res;
     }
 
@@ -1142,8 +1145,9 @@ public:
         get_group_view(const View /*view*/, Getter&& getter) noexcept
     {
         auto res = getter();
-        auto header = res(get_header_tag{});
-        cursor->pointer() = res(addressof_tag{}) + header(size_bytes_tag{});
+        cursor->pointer() =
+            res(addressof_tag{})
+            + decltype(res(get_header_tag{})){}(size_bytes_tag{});
         return res;
     }
 
@@ -5634,12 +5638,12 @@ public:
     template<typename T, typename Cursor, typename Tag>
     SBEPP_CPP14_CONSTEXPR bool on_group(T g, Cursor& c, Tag) noexcept
     {
-        const auto header = sbepp::get_header(g);
-        const auto header_size = sbepp::size_bytes(header);
-        if(!validate_and_subtract(header_size))
+        // header can be accessed only after its size is validated
+        if(!validate_and_subtract(get_header_size(g)))
         {
             return true;
         }
+        const auto header = sbepp::get_header(g);
 
         return validate_entries(g, c, header, is_flat_group<T>{});
     }
